@@ -163,10 +163,13 @@ pub fn generate(rng: &mut Rng, tier: Tier) -> Plan {
             4 => format!("é{}ß", s),
             5 => format!("{}7", s),
             6 => String::new(),
+            7 => (*rng.pick(&["desk\\", "NaN", "Infinity", "-Infinity", "null", "a\"b", "{", "x,y", "[1]"]))
+                .to_string(),
             _ => s,
         }
     };
     let df_like = interp == "linear_zero_rate" || rng.chance(0.5);
+    let wide_magnitude = rng.chance(0.08);
     let mut nodes: Vec<NodeSpec> = Vec::new();
     let prefix = "u_";
     for (i, d) in days.iter().enumerate() {
@@ -180,6 +183,12 @@ pub fn generate(rng: &mut Rng, tier: Tier) -> Plan {
             }
         } else {
             rng.log_uniform(0.05, 20.0)
+        };
+        // positive values of any magnitude (a few curves only: tiny or huge node values)
+        let v = if !df_like && wide_magnitude {
+            10f64.powf(rng.f64_in(-25.0, 25.0))
+        } else {
+            v
         };
         // round / repeated values: ln(1) = 0, equal neighbours give zero slopes
         let v = match rng.below(12) {
@@ -202,7 +211,7 @@ pub fn generate(rng: &mut Rng, tier: Tier) -> Plan {
         let tag = format!("{}{}", id, j);
         match &mut nodes[i].num {
             Num::D { g, .. } | Num::D2 { g, .. } => {
-                if !g.iter().any(|(nm, _)| nm == &tag) {
+                if !g.is_empty() && !g.iter().any(|(nm, _)| nm == &tag) {
                     g[0].0 = tag;
                 }
             }
